@@ -53,6 +53,10 @@ def main():
     only = [a for a in args if re.match(r"^C\d\d-", a)]
     os.makedirs(os.path.dirname(out), exist_ok=True)
     ensure_driver()
+    if not os.path.exists(os.path.join(REPO, "Cargo.lock")):
+        # Cargo.lock is git-ignored in georust/geo: a snapshot worktree lacks it; the pinned one lives in /repo
+        import shutil
+        shutil.copyfile("/repo/Cargo.lock", os.path.join(REPO, "Cargo.lock"))
     rc, o = sh("git status --porcelain", cwd=REPO)
     assert not o.strip(), "repo %s not clean: %s" % (REPO, o[:200])
     src = "seeded" if mode == "seeds" else "benign"
